@@ -467,7 +467,8 @@ def run(ctx: core.Ctx):
     n = 20 if ctx.quick else 120
     machine = make_machine(ctx)
     # directed histories first (one per target): every option dimension is varied once on its own over a populated directory
-    for lang, history in [(l, h) for l in ("c", "py", "cpp") for h in (DIRECTED_HISTORY, DIRECTED_HISTORY_B, DIRECTED_HISTORY_C, DIRECTED_HISTORY_D, DIRECTED_HISTORY_E, DIRECTED_HISTORY_F, DIRECTED_HISTORY_G) if not (h is DIRECTED_HISTORY_F and l == "cpp")]:
+    def directed(lang_history):
+        lang, history = lang_history
         m = machine()
         m.env = Env(DIRECTED_UNIVERSE, lang)
         m.trace.append({"op": "init", "lang": lang, "directed": True})
@@ -500,6 +501,13 @@ def run(ctx: core.Ctx):
             pass
         finally:
             m.teardown()
+
+    # the directed histories are independent of each other (own scratch tree each): run them side by side
+    import concurrent.futures
+
+    plan = [(l, h) for l in ("c", "py", "cpp") for h in (DIRECTED_HISTORY, DIRECTED_HISTORY_B, DIRECTED_HISTORY_C, DIRECTED_HISTORY_D, DIRECTED_HISTORY_E, DIRECTED_HISTORY_F, DIRECTED_HISTORY_G) if not (h is DIRECTED_HISTORY_F and l == "cpp")]
+    with concurrent.futures.ThreadPoolExecutor(max_workers=8) as ex:
+        list(ex.map(directed, plan))
     try:
         run_state_machine_as_test(hypothesis.seed(ctx.seed)(machine), settings=core.hsettings(n, shrink=not os.environ.get("VF_NO_SHRINK"), stateful_step_count=8 if ctx.quick else 25))
     except AssertionError:
